@@ -5,10 +5,10 @@ import (
 	"context"
 	"encoding/binary"
 	"encoding/json"
-	"os"
-	"os/exec"
 	"fmt"
 	"net"
+	"os"
+	"os/exec"
 	"strings"
 	"sync"
 	"time"
@@ -99,15 +99,15 @@ type poolConn struct {
 }
 
 type poolSrv struct {
-	mu        sync.Mutex
-	conns     []*poolConn
-	max       int
-	slow      map[string]chan struct{} // query id -> release signal
-	problems  []string
-	maxOpen   int
-	lastConn  map[string]int // query id -> conn id that served it
-	dialFail  bool
-	closeErr  bool
+	mu       sync.Mutex
+	conns    []*poolConn
+	max      int
+	slow     map[string]chan struct{} // query id -> release signal
+	problems []string
+	maxOpen  int
+	lastConn map[string]int // query id -> conn id that served it
+	dialFail bool
+	closeErr bool
 }
 
 func (s *poolSrv) problem(format string, a ...any) {
@@ -212,10 +212,10 @@ func (pc *poolConn) handleWrite(total int, p []byte) {
 // ---- op sequences
 
 type poolOp struct {
-	Op string `json:"op"` // acquire release release-again do ping close sleep finish-slow
-	W  int    `json:"w"`  // handle slot
+	Op   string `json:"op"`             // acquire release release-again do ping close sleep finish-slow
+	W    int    `json:"w"`              // handle slot
 	Kind string `json:"kind,omitempty"` // ok exc cut slow
-	Ms int    `json:"ms,omitempty"`
+	Ms   int    `json:"ms,omitempty"`
 }
 
 func (o poolOp) String() string {
@@ -223,12 +223,12 @@ func (o poolOp) String() string {
 }
 
 type poolCfg struct {
-	MaxConns  int `json:"max_conns"`
-	LifeMs    int `json:"max_lifetime_ms"`
-	IdleMs    int `json:"max_idle_ms"`
-	HealthMs  int `json:"health_period_ms"`
-	Compression int `json:"compression,omitempty"`
-	CloseErr  bool `json:"conn_close_reports_error,omitempty"` // net.Conn.Close tears the connection down but returns an error
+	MaxConns    int  `json:"max_conns"`
+	LifeMs      int  `json:"max_lifetime_ms"`
+	IdleMs      int  `json:"max_idle_ms"`
+	HealthMs    int  `json:"health_period_ms"`
+	Compression int  `json:"compression,omitempty"`
+	CloseErr    bool `json:"conn_close_reports_error,omitempty"` // net.Conn.Close tears the connection down but returns an error
 }
 
 type poolTrace struct {
@@ -254,8 +254,8 @@ func runPoolOps(cfg poolCfg, ops []poolOp) (tr poolTrace) {
 	}
 	ev := func(format string, a ...any) { tr.events = append(tr.events, fmt.Sprintf(format, a...)) }
 	handles := map[int]*chpool.Client{}
-	held := map[int]bool{}      // slot currently holds an acquired, not yet released handle
-	connOf := map[int]int{}     // slot -> conn id (learnt from the first request it sends)
+	held := map[int]bool{}  // slot currently holds an acquired, not yet released handle
+	connOf := map[int]int{} // slot -> conn id (learnt from the first request it sends)
 	bornAt := map[int]time.Time{}
 	var wg sync.WaitGroup
 	busy := map[int]bool{} // slot has a slow query in flight: its holder may not do anything else with the handle
